@@ -125,6 +125,8 @@ class Prop(SeqProp):
                 # Model/TmpPoolCtx.lean, D21)
                 meta["late_enter"] = True
                 ops.insert(rng.randint(2, hi), "enter 1")
+            if not mp_case and rng.random() < 0.1:
+                meta["rel_dir"] = True
             if not mp_case and created and rng.random() < 0.15:
                 # removals the operating system refuses for a while (Model/TmpPoolRefuse.lean): the file stays the pool's and goes
                 # once removing is allowed again
@@ -267,6 +269,18 @@ class Prop(SeqProp):
                         break
                 try:
                     if w[0] == "new":
+                        if pre is None and case.meta.get("rel_dir") and not mp_mode:
+                            # the directory is given relative to the working directory, which is the right one whenever a file is
+                            # created; removals, flushes and the exit happen with the program working somewhere else
+                            back_ = os.getcwd()
+                            os.chdir(os.path.dirname(d))
+                            try:
+                                pool = TmpPool(os.path.basename(d))
+                            finally:
+                                os.chdir(back_)
+                            if not late_enter:
+                                pool.__enter__(); entered = True
+                            out.append("ok " + dump()); continue
                         pool = pre if pre is not None else TmpPool(d, multi_proc=mp_mode)
                         pre = None
                         if not late_enter:
@@ -279,7 +293,16 @@ class Prop(SeqProp):
                         r = "ok"
                     elif w[0] == "create":
                         pid = int(w[1])
-                        if pid == 0:
+                        if pid == 0 and case.meta.get("rel_dir") and not mp_mode:
+                            back_ = os.getcwd()
+                            os.chdir(os.path.dirname(d))
+                            try:
+                                p = pool.create()
+                            finally:
+                                os.chdir(back_)
+                            if not os.path.isabs(p):
+                                p = os.path.join(os.path.dirname(d), p)  # for the harness's own bookkeeping
+                        elif pid == 0:
                             p = pool.create()
                         else:
                             rep = ask(pid, "create")
